@@ -91,3 +91,39 @@ func init() {
 	// the server's local zone is modelled as UTC: the zero Location behaves as UTC
 	reg("time.initLocal", noop)
 }
+
+func init() {
+	// vnd.MapOrder(true): every range over a map forks over all permutations of its keys
+	reg(VndPath+".MapOrder", func(m *Machine, fr *frame, a []Value) Value {
+		if asTerm(a[0]).IsTrue() {
+			m.mapOrder = permuteKeys
+		} else {
+			m.mapOrder = nil
+		}
+		return nil
+	})
+}
+
+func permuteKeys(m *Machine, fr *frame, keys []Value) []Value {
+	n := len(keys)
+	if n < 2 {
+		return keys
+	}
+	if n > 5 {
+		panic(unsupported("MapOrder: more than 5 keys"))
+	}
+	// choose the permutation step by step (n * (n-1) * … alternatives in total)
+	rest := append([]Value{}, keys...)
+	var out []Value
+	for len(rest) > 1 {
+		sel := m.freshVar("maporder", 8)
+		alts := make([]*Term, len(rest))
+		for i := range alts {
+			alts[i] = Eq(sel, BV(8, uint64(i)))
+		}
+		k := m.choose(alts, "map-order")
+		out = append(out, rest[k])
+		rest = append(rest[:k:k], rest[k+1:]...)
+	}
+	return append(out, rest[0])
+}
